@@ -137,4 +137,29 @@ Fixpoint mem_run (st : memst) (ops : list mop) : memst * list mres :=
       let '(st2, xs) := mem_run st1 r in (st2, x :: xs)
   end.
 
+(** ** The JSON helpers of objects/json.go over this store.
+
+    [CreateJSON] marshals and creates; [ReadJSON] opens and decodes the first
+    JSON value of the stream.  encoding/json is not modelled: [enc] and [dec]
+    are its marshaller and decoder as functions. *)
+Section Json.
+Variable V : Type.
+Variable enc : V -> option bytes.          (* json.Marshal *)
+Variable dec : bytes -> option V.          (* json.NewDecoder(r).Decode *)
+
+Definition create_json (st : memst) (v : V) : memst * mres :=
+  match enc v with
+  | Some bs => mem_step st (MCreate [(bs, REof)])     (* b.Create(bytes.NewBuffer(bs)) *)
+  | None => (st, MRBad)
+  end.
+
+Inductive jres := JVal (v : V) | JNotFound | JBadJson.
+
+Definition read_json (st : memst) (k : key) : jres :=
+  match snd (mem_step st (MOpen k)) with
+  | MRBytes c => match dec c with Some v => JVal v | None => JBadJson end
+  | _ => JNotFound
+  end.
+End Json.
+
 End Mem.
